@@ -1020,7 +1020,7 @@ run_bfs(void) {
 	note("observed_states", c_obs);
 	note("calc_size_skipped_unsafe_cursor", c_calc_skipped);
 	/* cross-check a deterministic sample of snapshots against API-only history replay */
-	step = (st_n / 1500) + 1;
+	step = (st_n / 200) + 1;
 	for (s = 0; s < st_n; s += step) {
 		c_crosschecks ++;
 		if (0 != crosscheck((uint32_t)s))
